@@ -252,8 +252,11 @@ impl Parser for Markdown {
                         }
                     }
 
-                    let mut new_tokens =
-                        english_parser.parse(&source[traversed_chars..traversed_chars + chunk_len]);
+                    // pulldown-cmark can report a text event twice (e.g. after `[[a|]]`), so the
+                    // cursor may already be past it: stay inside the source.
+                    let chunk_end = (traversed_chars + chunk_len).min(source.len());
+                    let chunk_start = traversed_chars.min(chunk_end);
+                    let mut new_tokens = english_parser.parse(&source[chunk_start..chunk_end]);
 
                     new_tokens
                         .iter_mut()
